@@ -23,7 +23,9 @@ from harness import vlib
 LEVELS = ["call", "cfgd", "cfg", "dflt"]
 KEYS = ["ann", "ex", "or"]
 ENTRY_LEVELS = {"mixin": ["call", "cfgd", "cfg"], "mixin_fmt": ["call", "cfgd", "cfg", "dflt"],
-                "codec_dc": ["cfgd", "cfg", "dflt"], "codec_bare": ["dflt"]}
+                "codec_dc": ["cfgd", "cfg", "dflt"], "codec_bare": ["dflt"],
+                # the library's own format mixin: its format dialect (MessagePackDialect) registers bytes -> pass_through
+                "mixin_msgpack": ["call", "cfgd", "cfg", "dflt"]}
 TABLE_VARIANTS = ["both", "ser", "de", "pt", "ptser", "ptde", "strat", "astrat"]
 F1_VARIANTS = ["both", "ser", "de", "pt"]
 F2_VARIANTS = ["strat", "astrat", "pt"]
@@ -32,6 +34,8 @@ TKINDS = {
     "dict": {"ex": "Dict[str, int]", "or": "dict", "value": '{"a": 1}', "wire": '{"a": "1"}', "builtin": '{"a": 1}'},
     "date": {"ex": "datetime.date", "or": None, "value": "datetime.date(2020, 1, 2)", "wire": '"2020-01-02"',
              "builtin": '"2020-01-02"'},
+    # only with mixin_msgpack (the format dialect always passes bytes through, so the built-in rendering never shows)
+    "bytes": {"ex": "bytes", "or": None, "value": 'b"ab"', "wire": 'b"ab"', "builtin": '"YWI=\\n"'},
 }
 
 
@@ -49,7 +53,7 @@ def order_of_property():
 def available_slots(entry: str, alias: str, tkind: str) -> list[str]:
     keys = [k for k in KEYS if not (k == "ann" and alias in ("none", "unhashable")) and not (k == "or" and TKINDS[tkind]["or"] is None)]
     out = [] if entry == "codec_bare" else ["F1", "F2"]
-    out += [f"{lvl}.{key}" for lvl in ENTRY_LEVELS[entry] for key in keys]
+    out += [f"{lvl}.{key}" for lvl in ENTRY_LEVELS[entry] for key in keys if not (entry == "mixin_msgpack" and lvl == "dflt")]
     return out
 
 
@@ -65,16 +69,20 @@ def pick_variant(rng, slot: str) -> str:
 
 
 def gen_case(rng, entry=None, alias=None, tkind=None, present=None) -> dict:
-    entry = entry or rng.choices(list(ENTRY_LEVELS), weights=[25, 35, 25, 15])[0]
+    entry = entry or rng.choices(list(ENTRY_LEVELS), weights=[22, 32, 22, 12, 12])[0]
     # "unhashable": Annotated alias whose metadata is a list - it cannot be a table key and the code must skip it
     alias = alias or rng.choices(["annotated", "newtype", "none", "unhashable"], weights=[55, 22, 13, 10])[0]
-    tkind = tkind or rng.choices(list(TKINDS), weights=[50, 25, 25])[0]
+    tkind = tkind or rng.choices(["list", "dict", "date"], weights=[50, 25, 25])[0]
+    if entry == "mixin_msgpack":
+        tkind = "bytes"
     av = available_slots(entry, alias, tkind)
     if present is None:
         p = rng.choice([0.12, 0.25, 0.4, 0.6, 0.85])
         # the two field slots beat everything: keep them rarer so that table slots get to win
         present = [s for s in av if rng.random() < (min(p, 0.2) if s in ("F1", "F2") else p)]
     slots = {s: pick_variant(rng, s) for s in present}
+    if entry == "mixin_msgpack":
+        slots["dflt.ex"] = "pt"      # MessagePackDialect.serialization_strategy[bytes] is pass_through
     # a level without registrations: dialect absent, or present with an unrelated table
     empty = {lvl: rng.choice(["absent", "unrelated"]) for lvl in ENTRY_LEVELS[entry]}
     return {"entry": entry, "alias": alias, "tkind": tkind, "slots": slots, "empty": empty,
@@ -138,7 +146,7 @@ def creation_recursion(case: dict) -> bool:
     known finding predicts RecursionError for one of those configurations."""
     if case["entry"] == "mixin":
         drops = [("call",)]
-    elif case["entry"] == "mixin_fmt":
+    elif case["entry"] in ("mixin_fmt", "mixin_msgpack"):
         drops = [("call",), ("call", "dflt")]
     else:
         return False
@@ -244,12 +252,12 @@ def build_source(case: dict) -> str:
     def table(lvl):
         ents = [f"{keyname[k]}: {variant_expr(slots[f'{lvl}.{k}'], f'{lvl}.{k}')}" for k in KEYS if f"{lvl}.{k}" in slots]
         if not ents and case["empty"].get(lvl) == "unrelated":
-            ents = ['bytes: {"serialize": S("unrelated"), "deserialize": D("unrelated")}']
+            ents = ['complex: {"serialize": S("unrelated"), "deserialize": D("unrelated")}']
         return ents
 
     has = {}
     for lvl, cname in (("call", "CallD"), ("cfgd", "CfgD"), ("dflt", "DfltD")):
-        if lvl not in ENTRY_LEVELS[entry]:
+        if lvl not in ENTRY_LEVELS[entry] or (entry == "mixin_msgpack" and lvl == "dflt"):
             has[lvl] = False
             continue
         ents = table(lvl)
@@ -280,10 +288,13 @@ def build_source(case: dict) -> str:
                 "    def to_fmt(self, encoder=ident, **kw): ...\n"
                 "    @classmethod\n    def from_fmt(cls, data, decoder=ident, **kw): ...")
             base = "FmtMixin"
+        elif entry == "mixin_msgpack":
+            L.append("from mashumaro.mixins.msgpack import DataClassMessagePackMixin")
+            base = "DataClassMessagePackMixin"
         else:
             base = ""
         cfg = []
-        if entry in ("mixin", "mixin_fmt") and (has["call"] or case.get("dialect_support")):
+        if entry in ("mixin", "mixin_fmt", "mixin_msgpack") and (has["call"] or case.get("dialect_support")):
             cfg.append("code_generation_options = [ADD_DIALECT_SUPPORT]")
         if has["cfgd"]:
             cfg.append("dialect = CfgD")
@@ -301,6 +312,9 @@ def build_source(case: dict) -> str:
     elif entry == "mixin_fmt":
         ser = f"DC(VALUE).to_fmt({kw})['x']"
         de = f"DC.from_fmt({{'x': WIRE}}{', ' + kw if kw else ''}).x"
+    elif entry == "mixin_msgpack":
+        ser = f"DC(VALUE).to_msgpack(encoder=ident{', ' + kw if kw else ''})['x']"
+        de = f"DC.from_msgpack({{'x': WIRE}}, decoder=ident{', ' + kw if kw else ''}).x"
     elif entry == "codec_dc":
         dd = "DfltD" if has["dflt"] else "None"
         ser = f"BasicEncoder(DC, default_dialect={dd}).encode(DC(VALUE))['x']"
@@ -658,15 +672,16 @@ def generate_cases(ctx: vlib.Ctx) -> list[dict]:
     cases = []
     # fixed probes first: every slot alone, every adjacent pair of the documented order, the findings' shapes
     for entry in ENTRY_LEVELS:
-        av = available_slots(entry, "annotated", "list")
+        tk = "bytes" if entry == "mixin_msgpack" else "list"
+        av = available_slots(entry, "annotated", tk)
         for s in av:
-            cases.append(gen_case(rng, entry, "annotated", "list", present=[s]))
+            cases.append(gen_case(rng, entry, "annotated", tk, present=[s]))
         ordered = [s for s in order_of_property() if s in av]
         for a, b in zip(ordered, ordered[1:]):
-            c = gen_case(rng, entry, "annotated", "list", present=[a, b])
-            c["slots"] = {a: "both" if a != "F2" else "strat", b: "both" if b != "F2" else "strat"}
+            c = gen_case(rng, entry, "annotated", tk, present=[a, b])
+            c["slots"].update({a: "both" if a != "F2" else "strat", b: "both" if b != "F2" else "strat"})
             cases.append(c)
-        cases.append(gen_case(rng, entry, "annotated", "list", present=[]))
+        cases.append(gen_case(rng, entry, "annotated", tk, present=[]))
     probes = [
         {"entry": "mixin", "alias": "annotated", "tkind": "list", "slots": {"cfg.ann": "astrat"}},
         {"entry": "mixin", "alias": "annotated", "tkind": "list", "slots": {"F2": "astrat", "cfg.ann": "both"}},
@@ -682,11 +697,18 @@ def generate_cases(ctx: vlib.Ctx) -> list[dict]:
             cases.append(gen_case(rng))
     else:
         # all presence subsets per entry point for the richest schema (variants sampled per slot) ...
-        #     (format mixin: 2^14, mixin and dataclass codec: 2^11 each, bare codec: 2^3)
+        #     (symmetry: a present field slot wins whatever else is registered, so for the 14-slot format
+        #     mixin the 2^12 subsets of table slots are enumerated without field slots and the field slots are
+        #     sampled; mixin and dataclass codec: all 2^11; bare codec: all 2^3)
         for entry in ENTRY_LEVELS:
-            av = available_slots(entry, "annotated", "list")
+            tk = "bytes" if entry == "mixin_msgpack" else "list"
+            av = available_slots(entry, "annotated", tk)
+            if entry == "mixin_fmt":
+                av = [s for s in av if s not in ("F1", "F2")]
             for bits in range(1 << len(av)):
-                cases.append(gen_case(rng, entry, "annotated", "list", present=[s for i, s in enumerate(av) if bits >> i & 1]))
+                cases.append(gen_case(rng, entry, "annotated", tk, present=[s for i, s in enumerate(av) if bits >> i & 1]))
+        for _ in range(2000):
+            cases.append(gen_case(rng, "mixin_fmt", "annotated", "list"))
         # ... and for NewType aliases through the codec / plain mixin; the rest sampled
         for entry in ("mixin", "codec_dc"):
             av = available_slots(entry, "newtype", "dict")
@@ -715,12 +737,12 @@ def classify(case: dict, d: str, obs: dict):
 
 def run(ctx: vlib.Ctx):
     ctx.coverage["rule"] = (
-        "a case = entry point (mixin to_dict/from_dict, format mixin to_fmt/from_fmt with a format dialect, "
+        "a case = entry point (mixin to_dict/from_dict, format mixin to_fmt/from_fmt with a format dialect, DataClassMessagePackMixin to_msgpack/from_msgpack with the library's format dialect, "
         "BasicEncoder/Decoder of the dataclass, codec of the bare type) x alias kind (Annotated, NewType, none) x "
         "field type (List[int], Dict[str,int], date) x a subset of the 2 field slots + (level x key) slots with a variant "
         "per slot (dict both/one direction, pass_through, dict with pass_through, strategy object, use_annotations strategy); "
         "each case is observed in both directions; distinct = distinct (entry, alias, type, slots->variant, direction); "
-        "non-trivial = at least one slot present. quick: fixed probes + 1500 sampled; thorough: every presence subset per entry point")
+        "non-trivial = at least one slot present. quick: fixed probes + 1500 sampled; thorough: every presence subset per entry point (format mixin: every subset of its 12 table slots, field slots sampled)")
     ctx.trusted += [
         "tools/kernels/k5_strategies.py: generator->gen (lazy raise), for-loop->Fixpoint with continuation, and the abstraction of CodeBuilder to (dialect, config, default_dialect) and of ValueSpec to (metadata, annotated_type, type, origin_type)",
         "PyK_strat.v primitives model isinstance/is_hashable/is_dialect_subclass/is_generic/callable and dict.get on type keys (validated on sampled tables each run against the Python originals)",
@@ -731,6 +753,16 @@ def run(ctx: vlib.Ctx):
     br = ctx.theorems("props/C10_precedence.vo", ["C10_precedence", "C10_empty", "C10_pass_through", "C10_sym"], kernels=["K5"])
     br2 = ctx.theorems("props/C10_single.vo", ["C10_single_application_partial", "C10_single_application_refuted"], kernels=["K5"])
     proofs_ok = br.ok and br2.ok and ctx.kernel_report.get("K5", {}).get("ok")
+    if proofs_ok and not ctx.quick():
+        # second opinion: the independent checker on the compiled property files
+        with vlib.Lock("build"):
+            rc, out, _ = vlib.run(["timeout", "600", "coqchk", "-silent", "-o", "-Q", "theories", "Verif", "-Q", "gen", "VerifGen",
+                                   "-Q", "props", "VerifProps", "VerifProps.C10_precedence", "VerifProps.C10_single"],
+                                  cwd=vlib.COQ, timeout=640)
+        ok = rc == 0 and "Axioms: <none>" in out
+        ctx.obligation("coqchk -o (C10_precedence, C10_single): no axioms", ok, out[-600:])
+        if not ok:
+            ctx.not_shown("coqchk", out[-1500:])
 
     kernel_validation(ctx, ctx.budget(120, 1200))
 
@@ -787,6 +819,13 @@ def run(ctx: vlib.Ctx):
             ctx.correspondence(name, len(coq_cases), -1, log)
             ctx.not_shown("correspondence " + name, log)
             return False
+        # a repaired known finding: the model still contains the defect, the code now satisfies the property there
+        stale = [i for i in bad if stale_alias_prediction(coq_descr[i][0], coq_descr[i][1]) is not None
+                 and classify(*coq_descr[i]) is None]
+        if stale:
+            ctx.notes.append(f"model-stale: finding C10/stale-annotated-alias no longer reproduces on {len(stale)} cases "
+                             "(the code now satisfies the property there; Strategies.applied still models the defect)")
+            bad = [i for i in bad if i not in set(stale)]
         det = [f"{coq_descr[i][0]['entry']} {coq_descr[i][1]} alias={coq_descr[i][0]['alias']} type={coq_descr[i][0]['tkind']} "
                f"slots={coq_descr[i][0]['slots']} observed={coq_descr[i][2]}" for i in bad[:6]]
         ctx.correspondence(name, len(coq_cases), len(bad), str(det))
